@@ -109,6 +109,8 @@ fn run_with<P: EffectiveTLDProvider + Sync + 'static, F: Fn() -> P>(mk: F, case:
     };
     let eff: Option<String> = rp.clone().or(host.clone());
     let puny = eff.as_ref().map(|e| idna::domain_to_unicode(e).1.is_ok());
+    // the canonical ASCII form the library asks the provider about (None: idna refuses the name)
+    let ascii: Option<String> = eff.as_ref().and_then(|e| idna::domain_to_ascii(e).ok());
 
     let verifier = RpIdVerifier::new(mk()).allows_insecure_localhost(allow);
     let res = {
@@ -170,6 +172,7 @@ fn run_with<P: EffectiveTLDProvider + Sync + 'static, F: Fn() -> P>(mk: F, case:
         "parse": true,
         "scheme": scheme, "domain": host.map(|h| hex(h.as_bytes())),
         "eff": eff.map(|e| hex(e.as_bytes())), "puny": puny,
+        "ascii": ascii.map(|a| hex(a.as_bytes())),
         "res": res, "valid": valid, "e2e": e2e,
     })
 }
